@@ -419,6 +419,7 @@ func (e *Exec) applyContract(callee *FuncInfo, call *ast.CallExpr, st *State, ct
 	}
 	c := callee.Contract
 	site := e.siteOf(call, callee, ctx)
+	names["allocTop@before"] = st.top
 	heapBefore := map[string]string{}
 	for k, v := range st.heap {
 		heapBefore[k] = v
@@ -471,6 +472,12 @@ func (e *Exec) applyContract(callee *FuncInfo, call *ast.CallExpr, st *State, ct
 		heapBefore[k] = st.heap[k]
 		st.heap[k] = e.fresh(st, "H_"+sanitize(k), "(Array Int "+sortOf(mods[k])+")")
 	}
+	// the callee may allocate: the boundary moves up by an unknown amount
+	topBefore := st.top
+	topAfter := e.fresh(st, "allocTop", "Int")
+	st.assume("(>= " + topAfter + " " + topBefore + ")")
+	st.top = topAfter
+	names["allocTop@after"] = topAfter
 	// results
 	var res []string
 	for i := 0; i < sig.Results().Len(); i++ {
@@ -484,12 +491,40 @@ func (e *Exec) applyContract(callee *FuncInfo, call *ast.CallExpr, st *State, ct
 			st.assume(inv)
 		}
 		if isPtrToStruct(rt) {
-			st.assume("(>= " + r + " 0)")
+			st.assume("(and (>= " + r + " 0) (< " + r + " " + topAfter + "))")
 		}
 		res = append(res, r)
 		if c != nil && i < len(c.Results) {
 			names[c.Results[i]] = r
 		}
+	}
+	// parameters the callee writes in place: the caller's variable no longer holds the old content
+	for i := range e.w.mutParams[callee] {
+		if i >= len(call.Args) {
+			continue
+		}
+		pname := sig.Params().At(i).Name()
+		if c != nil && (contains(c.Consumes, pname)) {
+			continue // ownership moved to the callee: the ownership pass checks the argument is not used again
+		}
+		id, ok := call.Args[i].(*ast.Ident)
+		if !ok {
+			e.note("in-place mutation of a non-variable argument by " + callee.Name + " is not tracked")
+			continue
+		}
+		v, ok := info.ObjectOf(id).(*types.Var)
+		if !ok {
+			continue
+		}
+		nt := e.fresh(st, v.Name()+"_post", sortOf(v.Type()))
+		if inv := typeInv(nt, v.Type()); inv != "" {
+			st.assume(inv)
+		}
+		if st.nonNil[v] {
+			st.assume("((_ is VMap) " + nt + ")")
+		}
+		st.env[v] = nt
+		names[pname+"@post"] = nt
 	}
 	if c != nil {
 		for _, en := range c.Ensures {
@@ -531,7 +566,7 @@ func (e *Exec) termOb(callee *FuncInfo, names map[string]string, st *State, call
 	}
 	var callerM, calleeM []string
 	for _, d := range mc.Decr {
-		callerM = append(callerM, e.clause(d, st, nil, e.fi.Decl.Body.Lbrace, e.fi.Pkg.TypesInfo, clauseEntry))
+		callerM = append(callerM, e.clause(slist(atom("old"), d), st, nil, e.fi.Decl.Body.Lbrace, e.fi.Pkg.TypesInfo, clauseEntry))
 	}
 	for _, d := range cc.Decr {
 		calleeM = append(calleeM, e.calleeClause(d, st, names, heapBefore))
@@ -543,4 +578,13 @@ func (e *Exec) termOb(callee *FuncInfo, names map[string]string, st *State, call
 		calleeM = append(calleeM, "0")
 	}
 	e.emit(st, "term", site+".decreases", lexLess(calleeM, callerM), []string{"C08"}, call.Pos(), "measure of "+callee.Name+" below measure of "+e.fi.Name)
+}
+
+func contains(xs []string, x string) bool {
+	for _, y := range xs {
+		if y == x {
+			return true
+		}
+	}
+	return false
 }
